@@ -257,11 +257,18 @@ func BuildFile(file *ir.File) *descriptor.FileDescriptorProto {
 				elemType(file, f, p)
 			}
 			dp.Field = append(dp.Field, p)
-			if f.HasComment {
-				sci.Location = append(sci.Location, &descriptor.SourceCodeInfo_Location{
+			if f.HasComment || f.Trailing != "" || len(f.Detached) > 0 {
+				loc := &descriptor.SourceCodeInfo_Location{
 					Path: []int32{4, int32(mi), 2, int32(fi)}, Span: []int32{int32(mi*100 + fi + 1), 2, 30},
-					LeadingComments: proto.String(f.Comment),
-				})
+				}
+				if f.HasComment {
+					loc.LeadingComments = proto.String(f.Comment)
+				}
+				if f.Trailing != "" {
+					loc.TrailingComments = proto.String(f.Trailing)
+				}
+				loc.LeadingDetachedComments = f.Detached
+				sci.Location = append(sci.Location, loc)
 			}
 		}
 		fd.MessageType = append(fd.MessageType, dp)
